@@ -3,6 +3,7 @@
 // Floats cross the boundary as 16-hex-digit bit patterns.
 mod util;
 mod c16;
+mod c18;
 
 use serde_json::{json, Value};
 use std::io::{BufRead, Write};
@@ -14,6 +15,7 @@ fn dispatch(case: &Value) -> Value {
     let p = k.split('.').next().unwrap_or("");
     match p {
         "c16" => c16::run(k, case),
+        "c18" => c18::run(k, case),
         _ => json!({"unknown": k}),
     }
 }
